@@ -349,7 +349,7 @@ def c16_check(tier, replay=None):
         plan.append(("sync", "bigsort", 220, (0, 6), "0.1"))
         plan.append(("sync", "bigsort", 221, (0, 6), "0.5"))
         plan.append(("sync", "manytexts", 230, (0, 8), "0.1"))
-        plan.append(("sync", "longrun", 240, (0, 6), "0.1"))
+        plan.append(("sync", "longrun", 240, (0, 4), "0.1"))
     execs = 0
     orders = set()
     overlap = 0
